@@ -370,6 +370,15 @@ def is_this_member(e, name=None):
     return name is None or e['name'] == name
 
 
+def cond_sense(cond, sense):
+    """(condition with __builtin_expect / casts / leading negations removed, the sense of the edge for THAT condition)"""
+    c = strip_expect(cond)
+    while c is not None and c.get('k') == 'un' and c.get('op') == '!' and sense in (True, False):
+        sense = not sense
+        c = strip_expect(c['e'])
+    return c, sense
+
+
 def callee_of(facts, e):
     """the function fact a call expression resolves to (None for externals / unresolved templates)"""
     return facts.by_id.get(e.get('cid')) if e is not None else None
@@ -512,8 +521,39 @@ class Report:
     def trust(self, *items):
         self.trusted.update(items)
 
+    def corroborate(self, rule, by):
+        """`rule` is a structural (shape-matching) rule whose clause is ALSO decided, on the current source, by the
+        exploration rule `by` in this run.  A failure of `rule` that `by` does not confirm means the code has a shape
+        the matcher does not recognise (renamed local, extracted helper, inverted branch): reported as analysis-broken
+        (exit 2), not as a violation.  A failure that `by` confirms stays a violation."""
+        if not hasattr(self, 'corroborated'):
+            self.corroborated = {}
+        self.corroborated[rule] = by
+
+    def _apply_corroboration(self):
+        cor = getattr(self, 'corroborated', {})
+        if not cor:
+            return
+        keep = []
+        for v in self.violations:
+            by = cor.get(v['rule'])
+            if by is None:
+                keep.append(v)
+                continue
+            by_failed = any(w['rule'] == by for w in self.violations)
+            by_ran = self.rule_counts.get(by, 0) >= 1 or by_failed
+            if by_failed:
+                keep.append(v)
+            elif by_ran:
+                self.broken.append('%s: proof not reconstructed for %s at %s (%s) - %s; the exploration %s of the same clause interprets this function on the current source and '
+                                   'found no counterexample: the construct is outside the shapes the rule recognises' % (v['rule'], v['construct'], v['loc'], v['function'], v['detail'][:160], by))
+            else:
+                self.broken.append('%s: proof not reconstructed for %s at %s and the corroborating exploration %s did not run' % (v['rule'], v['construct'], v['loc'], by))
+        self.violations = keep
+
     # -- finishing
     def finish(self, level='proof', explanation=None):
+        self._apply_corroboration()
         known = load_known()
         kn = [k for k in known.get('known', []) if k['property'] == self.prop]
         printed = []
